@@ -22,7 +22,7 @@ pub fn def() -> PropDef {
     }
 }
 
-const PATHS: [&str; 12] = [
+const PATHS: [&str; 15] = [
     "src/a.lua",
     "src/b.luau",
     "src/sub/c.lua",
@@ -35,6 +35,10 @@ const PATHS: [&str; 12] = [
     "src/vendor/sub/c.lua",
     "src/with space/i.lua",
     "src/dot.dir/j.lua",
+    // same names in another letter case: patterns are case sensitive
+    "src/A.lua",
+    "src/Sub/c.lua",
+    "src/vendor/E.LUA.lua",
 ];
 
 fn content(i: usize) -> String {
